@@ -1064,7 +1064,7 @@ class ConfValuesI(Interface):
 
 
 class ExeConfI(Interface):
-    attrs = {'mem_buff_size': Nat}
+    attrs = {'mem_buff_size': Nat, 'timeout_in_seconds': Opt(Nat)}     # the initial (default) timeout
 
 
 class PhaseTmpSpaceI(Interface):
@@ -1177,3 +1177,144 @@ def _setting_source(ctx):
                    'scan', detail={'writers': writers})
     ctx.obligation('TIMEOUT__DEFAULT == 60', os_proc_env.TIMEOUT__DEFAULT == 60, 'enumeration',
                    detail={'value': os_proc_env.TIMEOUT__DEFAULT})
+
+
+# ------------------------------------------------------------------------------ a timeout is reported as HARD_ERROR
+# CommandExecutorFromProcessExecutor.execute raises HardErrorException when the process times out (C10_process).
+# The instruction sites above let it propagate (or turn it into a hard-error result themselves); here: the
+# generic wrappers of an instruction's main step turn HardErrorException into HARD_ERROR of that step.
+
+from exactly_lib.impls.instructions.multi_phase.utils import instruction_part_utils, instruction_embryo
+from exactly_lib.execution.impl import single_instruction_executor, phase_step_executors
+from exactly_lib.execution.impl.single_instruction_executor import (PartialControlledFailureEnum,
+                                                                    PartialInstructionControlledFailureInfo)
+from exactly_lib.execution.result import ExecutionFailureStatus
+from exactly_lib.test_case.phases.common import TestCaseInstruction
+
+MAIN = 'main'
+
+
+class MainI(Interface):
+    """the main step of an arbitrary (phase agnostic) instruction embryo"""
+    methods = {'__call__': Method(returns=Any_, event=MAIN, params=['environment', 'settings', 'os_services'],
+                                  may_raise=(_mk_hard_error,))}
+
+
+class _EmbryoForProof(instruction_embryo.PhaseAgnosticInstructionEmbryo):
+    """concrete stand-in for the abstract PhaseAgnosticInstructionEmbryo: `main` is an arbitrary main step"""
+
+    def main(self, environment, settings, os_services):
+        return self.the_main(environment, settings, os_services)
+
+    @property
+    def validator(self):
+        raise NotImplementedError()
+
+    @property
+    def symbol_usages(self):
+        raise NotImplementedError()
+
+
+class TranslatorI(Interface):
+    target_class = instruction_part_utils.MainStepResultTranslator
+    methods = {'translate_for_non_assertion': Method(returns=Any_), 'translate_for_assertion': Method(returns=Any_)}
+
+
+MAIN_STEP_EXECUTOR = Inst(instruction_part_utils.MainStepExecutorFromMainStepExecutorEmbryo,
+                          result_translator=Iface(TranslatorI),
+                          main_step=Inst(_EmbryoForProof, the_main=Iface(MainI)))
+P_IPU = 'exactly_lib.impls.instructions.multi_phase.utils.instruction_part_utils'
+
+
+def mains(trace):
+    return [e[2] for e in trace if e[0] == MAIN]
+
+
+def main_raised(trace):
+    return any([e[0] == MAIN + ':raised' for e in trace])
+
+
+M.contract(P_IPU + ':MainStepExecutorFromMainStepExecutorEmbryo.apply_as_non_assertion',
+           params=dict(self=MAIN_STEP_EXECUTOR, environment=ENV_POST_SDS, settings=INSTRUCTION_SETTINGS,
+                       os_services=OS_SERVICES, setup_phase_settings=Opt(Any_)),
+           returns=Any_,
+           ensures={
+               'main gets the environment (with its timeout), the settings and the OS services unchanged':
+                   lambda environment, settings, os_services, trace:
+                   mains(trace) == [(environment, settings, os_services)],
+               'HardErrorException of main (e.g. a timeout) => hard error of the step':
+                   lambda result, trace: (not main_raised(trace)) or result.is_hard_error,
+           }, raises_only=())
+
+M.contract(P_IPU + ':MainStepExecutorFromMainStepExecutorEmbryo.apply_as_assertion',
+           params=dict(self=MAIN_STEP_EXECUTOR, environment=ENV_POST_SDS, settings=INSTRUCTION_SETTINGS,
+                       os_services=OS_SERVICES),
+           returns=Any_,
+           ensures={
+               'main gets the environment (with its timeout), the settings and the OS services unchanged':
+                   lambda environment, settings, os_services, trace:
+                   mains(trace) == [(environment, settings, os_services)],
+               'HardErrorException of main (e.g. a timeout) => HARD_ERROR (not FAIL) of the assertion':
+                   lambda result, trace: (not main_raised(trace))
+                                         or result.status is pfh.PassOrFailOrHardErrorEnum.HARD_ERROR,
+           }, raises_only=())
+
+P_PSE = 'exactly_lib.execution.impl.phase_step_executors'
+
+M.contract(P_PSE + ':_from_success_or_hard_error', inline=True,
+           params=dict(res=Inst(sh.SuccessOrHardError, _tuple=[Opt(Any_)])),
+           ensures={'hard error => HARD_ERROR': lambda res, result:
+           (result is None) if res[0] is None else (result.status is PartialControlledFailureEnum.HARD_ERROR)},
+           raises_only=())
+
+M.contract(P_PSE + ':_from_pass_or_fail_or_hard_error', inline=True,
+           params=dict(res=Inst(pfh.PassOrFailOrHardError, _tuple=[EnumOf(pfh.PassOrFailOrHardErrorEnum), Opt(Any_)])),
+           ensures={'HARD_ERROR => HARD_ERROR, FAIL => FAIL': lambda res, result:
+           (result is None) if res[0] is pfh.PassOrFailOrHardErrorEnum.PASS
+           else (result.status.name == res[0].name)},
+           raises_only=())
+
+APPLY = 'apply'
+
+
+class ControlledExecutorI(Interface):
+    target_class = single_instruction_executor.ControlledInstructionExecutor
+    methods = {APPLY: Method(returns=Opt(Inst(PartialInstructionControlledFailureInfo,
+                                              _tuple=[EnumOf(PartialControlledFailureEnum), Any_])),
+                             event=APPLY, may_raise=(_mk_hard_error,))}
+
+
+class SourceLocationInfoI(Interface):
+    attrs = {'source_location_path': Any_}
+
+
+class ElementI(Interface):
+    attrs = {'source_location_info': Iface(SourceLocationInfoI)}
+
+
+class InstructionI(Interface):
+    target_class = TestCaseInstruction
+
+
+class InstructionInfoI(Interface):
+    attrs = {'instruction': Iface(InstructionI)}
+
+
+def _applied(trace):
+    return [e[2] for e in trace if e[0] == APPLY + ':returned']
+
+
+M.contract('exactly_lib.execution.impl.single_instruction_executor:execute_element',
+           params=dict(executor=Iface(ControlledExecutorI), element=Iface(ElementI),
+                       instruction_info=Iface(InstructionInfoI)),
+           returns=Any_,
+           ensures={
+               'HardErrorException of the step => HARD_ERROR': lambda result, trace:
+               (not any([e[0] == APPLY + ':raised' for e in trace]))
+               or result.status is ExecutionFailureStatus.HARD_ERROR,
+               'the status of a failing step is kept (HARD_ERROR stays HARD_ERROR)': lambda result, trace:
+               (not (len(_applied(trace)) == 1 and _applied(trace)[0] is not None))
+               or result.status.name == _applied(trace)[0].status.name,
+               'success => no failure': lambda result, trace:
+               (not (len(_applied(trace)) == 1 and _applied(trace)[0] is None)) or result is None,
+           }, raises_only=())
